@@ -372,6 +372,17 @@ fn main() {
 
     unsafe { std::env::set_var("SNELDB_CONFIG", format!("{}/config.toml", root)) };
 
+    // OS entropy: reproducible, but different in every process lifetime (as it is in reality - anything that
+    // depends on per-process random keys, e.g. a randomly seeded hasher, must not leak into durable behaviour)
+    {
+        let mut h: u64 = 0xcbf29ce484222325;
+        for b in plan["uid_salt"].as_str().unwrap_or("").bytes().chain(format!("#life{}", li).bytes()) {
+            h ^= b as u64;
+            h = h.wrapping_mul(0x100000001b3);
+        }
+        seams::ENTROPY_SALT.store(h, Ordering::SeqCst);
+    }
+
     // wall clock
     if let Some(ms) = life["wall_clock_ms"].as_i64() {
         seams::WALL_NS.store(ms * 1_000_000, Ordering::SeqCst);
